@@ -11,7 +11,8 @@ trap cleanup EXIT
 git -C /repo worktree add -q --detach "$W/repo" HEAD || exit 2
 cd "$W/repo"
 pkg=$(python3 -c "import json,sys;print(json.load(open('$D/meta.json')).get('package_dir_of_demo','.'))")
-prop=$(python3 -c "import json,sys;print(json.load(open('$D/meta.json'))['property'])")
+# the property whose check must report it: breaks_property ("C10 (seeded as C08)") if given, else property
+prop=$(python3 -c "import json,sys;m=json.load(open('$D/meta.json'));print((m.get('breaks_property') or m['property']).split()[0])")
 demo=$(ls "$D"/*_test.go 2>/dev/null | head -1)
 if [ -z "$demo" ] && ls "$D"/*_test.go.txt >/dev/null 2>&1; then
   # stored seeds keep their demonstration as .txt so that it is not compiled as part of /verif
